@@ -127,6 +127,22 @@ func txnSQL(a Action) string {
 		return fmt.Sprintf("REPLACE INTO %s (id, v) USING (id) VALUES (%d, %d);", t, k, x)
 	case "replace3":
 		return fmt.Sprintf("REPLACE INTO %s (id, v) USING (id) VALUES (%d, %d), (%d, %d), (%d, %d);", t, k+2, x, k, x+1, k+1, x)
+	case "selectsub":
+		return "SELECT * FROM (SELECT * FROM " + t + ") s;"
+	case "selectagg":
+		return "SELECT COUNT(*) AS n, SUM(v) AS s FROM " + t + ";"
+	case "insertsel":
+		return fmt.Sprintf("INSERT INTO %s SELECT id + 10, v FROM %s;", t, tname(aStr(a, "u")))
+	case "insertcols":
+		return fmt.Sprintf("INSERT INTO %s (id) VALUES (%d);", t, k)
+	case "insertbad2":
+		return fmt.Sprintf("INSERT INTO %s VALUES (%d, 1), (%d);", t, k, k+1)
+	case "updatejoin":
+		return fmt.Sprintf("UPDATE tx SET tx.v = ux.v FROM %s tx JOIN %s ux ON tx.id = ux.id;", t, tname(aStr(a, "u")))
+	case "addfirst":
+		return fmt.Sprintf("ALTER TABLE %s ADD x DEFAULT id FIRST;", t)
+	case "addfail":
+		return fmt.Sprintf("ALTER TABLE %s ADD y DEFAULT CASE WHEN id = %d THEN 1 %% 0 ELSE 7 END;", t, k)
 	case "addcol":
 		return fmt.Sprintf("ALTER TABLE %s ADD w DEFAULT 7;", t)
 	case "dropcol":
@@ -193,7 +209,17 @@ func showFile(path string, zeroIsAbsent bool) []string {
 
 func txnExec(p *sut.Proc, a Action) Out {
 	switch actName(a) {
-	case "select":
+	case "selectagg":
+		r := p.Exec(txnSQL(a))
+		if r.Err != "" {
+			return Out{K: "err", E: errClass(r), Vals: []string{}}
+		}
+		v := showTable(r.Out)
+		if len(v) == 4 {
+			return Out{K: "val", Vals: v[2:]}
+		}
+		return Out{K: "val", Vals: v}
+	case "select", "selectsub":
 		r := p.Exec(txnSQL(a))
 		if r.Err != "" {
 			return Out{K: "err", E: errClass(r), Vals: []string{}}
@@ -277,7 +303,8 @@ func txnSig(a Action, exp, obs Out) string {
 	return s
 }
 
-func txnA(act, t string, k, x int) Action { return Action{"act": act, "t": t, "k": k, "x": x} }
+func txnA(act, t string, k, x int) Action { return Action{"act": act, "t": t, "k": k, "x": x, "u": ""} }
+func txnA2(act, t, u string) Action { return Action{"act": act, "t": t, "k": 0, "x": 0, "u": u} }
 
 // txnRandom: longer histories over bigger tables (around the 160-row threshold of parallel evaluation)
 func txnRandom(r *core.Run, hk int, flavour string) (Action, []Action) {
@@ -313,6 +340,19 @@ func txnRandom(r *core.Run, hk int, flavour string) (Action, []Action) {
 		}
 		x := rng.Intn(100)
 		switch {
+		case x < 6:
+			acts = append(acts, txnA([]string{"selectsub", "selectagg"}[rng.Intn(2)], t, 0, 0))
+		case x < 9:
+			u := []string{"f1", "f2", "tt"}[rng.Intn(3)]
+			if rng.Intn(2) == 0 {
+				acts = append(acts, txnA2("insertsel", t, u))
+			} else if u != t {
+				acts = append(acts, txnA2("updatejoin", t, u))
+			}
+		case x < 11:
+			acts = append(acts, txnA([]string{"insertcols", "insertbad2", "addfail"}[rng.Intn(3)], t, key(), 0))
+		case x < 12:
+			acts = append(acts, txnA("addfirst", t, 0, 0))
 		case x < 22:
 			acts = append(acts, txnA("select", t, 0, 0))
 		case x < 30:
@@ -450,11 +490,13 @@ func runC01(r *core.Run) {
 		var sql strings.Builder
 		sql.WriteString("DECLARE tt VIEW (id, v);\n")
 		var selects []Out
+		var selectAgg []bool
 		for k, a := range b.acts {
 			sql.WriteString(txnSQL(a))
 			sql.WriteByte('\n')
-			if actName(a) == "select" && b.exps[k].K == "val" {
+			if n := actName(a); (n == "select" || n == "selectsub" || n == "selectagg") && b.exps[k].K == "val" {
 				selects = append(selects, b.exps[k])
+				selectAgg = append(selectAgg, n == "selectagg")
 			}
 		}
 		wantExit := 0
@@ -495,6 +537,9 @@ func runC01(r *core.Run) {
 						got = append(got, c.String())
 					}
 				}
+			}
+			if selectAgg[k] && len(got) == 4 {
+				got = got[2:]
 			}
 			if !sameOut(Out{K: "val", Vals: got}, selects[k]) {
 				return res{"c01:select-contents", fmt.Sprintf("SELECT number %d shows %v, specification %v\n%s", k+1, got, selects[k].Vals, ctx)}
